@@ -14,7 +14,7 @@
 //	typed boundary scalars read back through DecodeInt64/Uint64/Float64/Bool/String/Bytes/Time
 //	first all 256 first bytes x fixed tails, both modes
 //	deep  deep nesting in a subprocess with debug.SetMaxStack(64<<20)
-//	regr  replay inputs of the repaired findings (FWbinc-1/2/3, F11-1, F14-1, F14-3, F02-1)
+//	regr  replay inputs of the repaired findings (FWbinc-1/2/3, F11-1, F14-1, F14-3, F02-1, F07-1n)
 //
 // Hostile inputs run under a watchdog (goroutine + timeout).
 package main
@@ -767,7 +767,28 @@ func encStream(c *ctxT, n int) [][]byte {
 			if pass == 1 {
 				stream = "skipseq"
 			}
-			if obs.err != 0 || len(obs.items) != k {
+			firstBig := -1
+			if d.signed {
+				for j := range items {
+					if hasBigUint(items[j]) {
+						firstBig = j
+						break
+					}
+				}
+			}
+			if firstBig >= 0 {
+				// SignedInteger and an unsigned value >= 2^63: the call that decodes it must fail
+				// (a skipped value is not converted); values before it are compared by the model
+				decodesIt := false
+				for j := firstBig; j < k; j++ {
+					if !modes[j] && hasBigUint(items[j]) {
+						decodesIt = true
+					}
+				}
+				if decodesIt && obs.err == 0 {
+					c.sum.FailC(stream, "binc:signed-overflow-not-reported", "SignedInteger: an unsigned value >= 2^63 was decoded without an overflow error", cj)
+				}
+			} else if obs.err != 0 || len(obs.items) != k {
 				c.sum.FailC(stream, "binc:decode-of-valid", "decoding what the Encoder wrote returned an error", cj)
 			} else {
 				for j := range items {
@@ -807,6 +828,26 @@ func encStream(c *ctxT, n int) [][]byte {
 		}
 	}
 	return corpus
+}
+
+
+// hasBigUint: an unsigned integer >= 2^63 somewhere in the tree: under SignedInteger
+// DecodeNaked must report an overflow for it (F07-1n).
+func hasBigUint(it *item) bool {
+	if it.k == kUint && it.u >= 1<<63 {
+		return true
+	}
+	for _, x := range it.l {
+		if hasBigUint(x) {
+			return true
+		}
+	}
+	for _, kv := range it.m {
+		if hasBigUint(kv[0]) || hasBigUint(kv[1]) {
+			return true
+		}
+	}
+	return false
 }
 
 func kindsOf(items []*item) string {
@@ -1080,6 +1121,20 @@ func regrStream(c *ctxT) {
 				map[string]interface{}{"format": "binc", "AsSymbols": 1, "variant": variant, "bytes": vh.Hex(b), "got": fmt.Sprint(out), "err": fmt.Sprint(err)})
 		}
 		sum.Count("regr.f11", fmt.Sprintf("f11/%d", variant))
+	}
+	// F07-1n: SignedInteger and an unsigned value >= 2^63: overflow error, not a sign-flipped int64
+	for _, u := range []uint64{1 << 63, 1<<63 + 5, 1<<64 - 1, 1<<63 - 1} {
+		var b []byte
+		codec.NewEncoderBytes(&b, &codec.BincHandle{}).MustEncode(u)
+		h := &codec.BincHandle{}
+		h.SignedInteger = true
+		var out interface{}
+		err := codec.NewDecoderBytes(b, h).Decode(&out)
+		if (u >= 1<<63) != (err != nil) {
+			sum.FailC("regr", "binc:naked:signed-overflow", "SignedInteger: an unsigned value >= 2^63 decoded into interface{} without an overflow error (or a smaller one failed)",
+				map[string]interface{}{"format": "binc", "value": u, "bytes": vh.Hex(b), "got": fmt.Sprint(out), "err": fmt.Sprint(err)})
+		}
+		sum.Count("regr.f07n", fmt.Sprintf("f07n/%d", u))
 	}
 	// F02-1: a crafted 64-bit length inside a skipped value must not move the cursor backwards
 	for _, in := range [][]byte{
